@@ -242,6 +242,11 @@ Proof.
 Qed.
 
 (* ================= 5. C01 / C02 / C05 on any index satisfying index_ok ================= *)
+Lemma tp_wf docs : wf_docs docs -> forall t, sorted2 (tp_from 0 docs t) /\ bounded (tp_from 0 docs t).
+Proof.
+  intros [Hs Hn] t. split; [apply tp_sorted|]. apply tp_bounded; [exact Hs|]. lia.
+Qed.
+
 Section Queries.
 Variables (docs : list (list N)) (ix : sindex).
 Hypothesis Hwf : wf_docs docs.
@@ -252,11 +257,6 @@ Let Habsent := proj1 (proj2 Hok).
 Let Hterms := proj1 (proj2 (proj2 Hok)).
 Let Hlens := proj2 (proj2 (proj2 Hok)).
 
-Lemma tp_wf t : sorted2 (tp_from 0 docs t) /\ bounded (tp_from 0 docs t).
-Proof.
-  destruct Hwf as [Hs Hn]. split; [apply tp_sorted|]. apply tp_bounded; [exact Hs|]. lia.
-Qed.
-
 Lemma lens_length : length (ix_lens ix) = length docs.
 Proof. rewrite Hlens. unfold lens_spec. apply map_length. Qed.
 
@@ -264,7 +264,7 @@ Theorem termfreqs_ok t : termfreqs ix t = AOk (tf_spec docs t).
 Proof.
   unfold termfreqs, tf_spec. destruct (in_dec N.eq_dec t (concat docs)) as [Hi|Hn].
   - rewrite (known_true docs ix t Hterms Hi). cbn [negb]. unfold get_posts. rewrite (Hposts t Hi). cbn [abind].
-    rewrite term_pairs_tp. destruct (tp_wf t) as [Hs Hb]. rewrite counts_correct by assumption. cbn [lift abind].
+    rewrite term_pairs_tp. destruct (tp_wf docs Hwf t) as [Hs Hb]. rewrite counts_correct by assumption. cbn [lift abind].
     unfold n_docs. rewrite lens_length.
     assert (Ecs : counts_spec (tp_from 0 docs t) = map kc_of_g (gk_from 0 docs t)).
     { unfold counts_spec. rewrite gbk_tp. reflexivity. }
@@ -282,7 +282,7 @@ Theorem docfreq_ok t : docfreq ix t = AOk (df_spec docs t).
 Proof.
   unfold docfreq. destruct (in_dec N.eq_dec t (concat docs)) as [Hi|Hn].
   - rewrite (known_true docs ix t Hterms Hi). cbn [negb]. unfold get_posts. rewrite (Hposts t Hi). cbn [abind].
-    rewrite term_pairs_tp. destruct (tp_wf t) as [Hs Hb].
+    rewrite term_pairs_tp. destruct (tp_wf docs Hwf t) as [Hs Hb].
     rewrite keys_unique_correct; [|assumption|assumption|rewrite tp_nil_iff; tauto].
     cbn [lift abind]. f_equal. unfold keys_spec. rewrite map_length, gbk_tp. apply gk_length_df.
   - rewrite (known_false docs ix t Hterms Hn). cbn [negb]. f_equal.
@@ -362,7 +362,7 @@ Proof.
     + apply gk_full. apply Nat.eqb_eq. exact EL.
     + exact (fill_gk t docs 0).
   - apply seq_N_sorted.
-  - unfold rows. rewrite Forall_map. apply Forall_forall. intros j Hj. apply in_seq in Hj. pows. rewrite pow28 in Hn. lia.
+  - unfold rows. rewrite Forall_map. apply Forall_forall. intros j Hj. apply in_seq in Hj. pows. lia.
   - pose proof (tp_length_le t docs 0). pose proof (concat_length_bound docs Hshort). rewrite pow62. rewrite pow28 in Hn. nia.
   - rewrite Hrl, pow62. rewrite pow28 in Hn. lia.
 Qed.
